@@ -216,6 +216,15 @@ func callee(info *types.Info, call *ast.CallExpr) *types.Func {
 	return f
 }
 
+// calleeVarName returns "pkgpath.Name" when the call goes through a
+// package-level function variable (e.g. util.UnmarshalJSON = json.Unmarshal).
+func calleeVarName(info *types.Info, call *ast.CallExpr) string {
+	if v, ok := typeutil.Callee(info, call).(*types.Var); ok && v.Pkg() != nil && v.Parent() == v.Pkg().Scope() {
+		return v.Pkg().Path() + "." + v.Name()
+	}
+	return ""
+}
+
 // calleeBuiltin returns the builtin name ("close", "append", ...) or "".
 func calleeBuiltin(info *types.Info, call *ast.CallExpr) string {
 	if b, ok := typeutil.Callee(info, call).(*types.Builtin); ok {
